@@ -143,3 +143,11 @@ reg("C02",
     explanation="one object/union/alias per type shape up to depth 2 (21 leaves incl. references to enum/object/union/aliases/external), recursive and field-count families; per type the model's valid documents and every single-fault variant, all union member sequences <= 3; client and server JSON deserializers of the compiled generated types; configurations default and exhaustive+serializeEmptyCollections (thorough: all four, plus Smile round trips)",
     level_text="Explicit-state model checking with a specification-level wire model (validity, canonical form, fault catalogue) as oracle; every state is executed on the code the current tree generates (regenerated and recompiled on every run).",
     level_note="Trusted: the wire model (engines/e2/model.py); rustc/cargo; the probe dispatcher. Inputs on which the specification is silent (null for collections / required any, 1.0 for integers, duplicates, relaxed datetime/uuid spellings) are in neither set.")
+
+reg("C10",
+    packages=["cgorder"], cmd=["python3", "engines/e2/e2.py"], level="model_checking", engine="E2 genharness",
+    technique="explicit-state enumeration of (enum/union definition, configuration, document) states on the compiled output of the real generator, judged by the round-trip / classification rule of the statement",
+    design_ref="DESIGN.md §3 C10",
+    explanation="enums with 1/2/3 values and unions with 0/1/2/3 variants (one named `unknown`) plus one union per leaf shape, default and exhaustive configuration; every listed value/variant document, unlisted enum names over [A-Z0-9_] up to the length bound and multi-word names, ill-formed names, unlisted variant names x 17 JSON payloads in both member orders; client, server and `any` paths",
+    level_text="Bounded exhaustive exploration of names and payloads on the generated code of the current tree, with the statement's rule as oracle (unlisted => preserved and classified unknown unless exhaustive; listed => itself; exhaustive => exactly the unlisted rejected).",
+    level_note="Trusted: Debug output of the generated types to read the classification (prefix of the unknown variant), JSON equality for 'equivalent document'. An enum value named UNKNOWN and an empty enum are not valid Conjure and are not enumerated.")
